@@ -137,3 +137,33 @@ func VerifC10Uncomparable(n int) {
 	vrt.Assert(err == ErrUncomparable, "an uncomparable pair makes order throw")
 	vrt.Assert(len(ch) == 0, "order outputs nothing when it throws")
 }
+
+// VerifC10Stable: n floats each constrained to {-0.0, +0.0, 1.0}: many values
+// that compare equal but are distinguishable (sign of zero), enough of them
+// (n >= 13) to leave the insertion-sort regime of the library sorts.
+func VerifC10Stable(n, rev int) {
+	var in []any
+	for i := 0; i < n; i++ {
+		f := vrt.Float64("f")
+		vrt.Assume(vrt.Or(f == 0, f == 1))
+		in = append(in, f)
+	}
+	reverse := rev == 1
+	fm, ch := verifOutFrame(n + 1)
+	err := order(fm, orderOptions{Reverse: reverse}, func(f func(any)) {
+		for _, v := range in {
+			f(v)
+		}
+	})
+	vrt.Assert(err == nil, "ordered without error")
+	out := verifDrain(ch)
+	want := verifStableSort(in, reverse)
+	vrt.Assert(len(out) == len(want), "same number of values")
+	same := true
+	for i := range want {
+		if i < len(out) {
+			same = vrt.And(same, math.Float64bits(out[i].(float64)) == math.Float64bits(want[i].(float64)))
+		}
+	}
+	vrt.Assert(same, "values that compare equal keep their input order (stable, beyond 12 elements)")
+}
